@@ -664,6 +664,24 @@ theorem linked_list_calls_do_not_disturb_other_lists {h : HCache K V} {c : Cache
     rw [hmem.2.2.2.2] at this
     omega
 
+/-- copy() in ONE memory (`ret = self.__class__(…)`: a new anchor; then one `_set_key_and_add_to_front_of_ll` per
+    link met on the walk of the source): the new list holds the same items in the same eviction order, consists of
+    NEW links only (disjoint from the source's links), and the source list is still well formed, with the same
+    cells, in the memory that now also holds the copy — the copy shares no link with the original -/
+theorem ll_copy_in_one_memory {l : LL K V} {cells : Cells K V} (h : Rep l cells) :
+    ∃ cells', Rep (l.reinit.addAll l.flatten) cells' ∧ ringOf cells' = ringOf cells ∧
+      (∀ a ∈ footprint (l.reinit.addAll l.flatten) cells', a ∉ footprint l cells) ∧
+      Rep (l.inMemoryOf (l.reinit.addAll l.flatten)) cells ∧
+      (l.inMemoryOf (l.reinit.addAll l.flatten)).flatten = l.flatten := by
+  obtain ⟨cells', h1, h2, h3, h4⟩ := h.copy_in_same_memory
+  exact ⟨cells', h1, h2, h3, h4, by rw [h4.flatten, h.flatten]⟩
+
+/-- a source list with two links (the hypothesis `Rep l cells` is satisfiable) -/
+example : ∃ cells : Cells Nat Nat, Rep (((LL.new : LL Nat Nat).addFront 1 5).addFront 2 6) cells ∧
+    ((((LL.new : LL Nat Nat).addFront 1 5).addFront 2 6).reinit.addAll
+      (((LL.new : LL Nat Nat).addFront 1 5).addFront 2 6).flatten).flatten = [(some 1, some 5), (some 2, some 6)] :=
+  ⟨_, (Rep.new.addFront 5 rfl).addFront 6 (by decide), by decide⟩
+
 /-- the hypotheses are satisfiable: a list with one link (anchor 0, link 1) and a second, empty list whose
     anchor (link 2) was allocated after it in the same memory; a link is added to the second list -/
 example : ∃ (l1 l2 : LL Nat Nat) (c1 c2 : Cells Nat Nat), Rep l1 c1 ∧ Rep l2 c2 ∧
